@@ -226,6 +226,35 @@ pub fn tmpl() -> ZooLang {
     }
 }
 
+/// Small language for the tags checks: functions, classes, calls, lets, doc comments, Unicode identifiers.
+pub fn tagl() -> ZooLang {
+    let g = G::new("tagl")
+        .rule("source", rep(sym("_item")))
+        .rule("_item", choice(vec![sym("fn_def"), sym("class_def"), sym("call"), sym("let")]))
+        .rule("fn_def", seq(vec![s("fn"), field("name", sym("ident")), field("params", sym("params")), field("body", sym("block"))]))
+        .rule("params", seq(vec![s("("), sep(",", sym("ident")), s(")")]))
+        .rule("class_def", seq(vec![s("class"), field("name", sym("ident")), field("body", sym("block"))]))
+        .rule("block", seq(vec![s("{"), rep(sym("_item")), s("}")]))
+        .rule("call", seq(vec![field("fn", sym("ident")), field("args", sym("args")), s(";")]))
+        .rule("args", seq(vec![s("("), sep(",", sym("ident")), s(")")]))
+        .rule("let", seq(vec![s("let"), field("name", sym("ident")), s(";")]))
+        .rule("ident", pat("[\\p{L}_][\\p{L}\\p{N}_]*"))
+        .rule("comment", token(seq(vec![s("#"), pat("[^\\n]*")])))
+        .rule("block_comment", token(seq(vec![s("/*"), pat("[^*]*\\*+([^/*][^*]*\\*+)*"), s("/")])))
+        .word("ident")
+        .extras(vec![pat("\\s"), sym("comment"), sym("block_comment")]);
+    ZooLang {
+        name: "tagl", spec: spec(g, None),
+        lexemes: vec!["fn", "class", "let", "f", "é", "skip", "(", ")", "{", "}", ";", ",", "# d\n", "\n", " ", "/*é*/"],
+        seeds: vec![
+            "", "fn f() {}", "# doc\nfn f(a, b) { a(); g(b); }", "class C { fn m() { m(); } }", "f(); g(x, y);", "let f; f(); g();", "fn f(x) { x(); y(); } x();",
+            "# one\n# two\nfn f() {}", "# far\n\nfn f() {}", "skip(); f(); skip();", "fn é() { é(); } /*😀*/ naïve(); /*é*/ f();", "fn f( {", "f(;", "fn f() { let g; g(); { g(); } } g();",
+            "f(); g(); h(); i();", "  f();\r\n  g();\r\n",
+        ],
+        skippable: b" \t\r\n", has_scanner: false,
+    }
+}
+
 pub fn fixture(name: &'static str, lexemes: Vec<&'static str>, seeds: Vec<&'static str>) -> Result<ZooLang, String> {
     let spec = crate::lang::fixture_spec(name)?;
     let has_scanner = spec.scanner_c.is_some();
@@ -239,7 +268,7 @@ pub fn core_zoo() -> Vec<ZooLang> {
 pub fn by_name(name: &str) -> Option<ZooLang> {
     match name {
         "arith" => Some(arith()), "stmts" => Some(stmts()), "jsonish" => Some(jsonish()), "glr" => Some(glr()), "lexla" => Some(lexla()),
-        "indent" => Some(indent()), "pstring" => Some(pstring()), "tmpl" => Some(tmpl()),
+        "indent" => Some(indent()), "pstring" => Some(pstring()), "tmpl" => Some(tmpl()), "tagl" => Some(tagl()),
         _ => None,
     }
 }
